@@ -21,7 +21,7 @@ PROPS = {
         "title": "Integer arithmetic is exact at every magnitude",
         "v_units": ["arith", "gcd"], "ob_filter": {"arith": C01_ARITH},
         "k_groups": ["fixnum_repr", "shl_kernel"],
-        "replay": "arith",
+        "replay": "arith", "sweep": "arithall",
         "level": "proof",
     },
     "C02": {
